@@ -9,7 +9,9 @@ an injected platform fault. The oracle is computed from the JSON spec and the co
 
 Campaigns:
 * small / mid / big - batches of 1-7 / 8-31 / 32-64 requests on the long-lived, warmed engine of this process.
-* cold - every batch (1-16 requests) gets a fresh engine and is fired at the cold descriptor cache with a slow inventory.
+* cold - every batch (1-16 requests) gets a fresh engine and is fired at the cold descriptor cache with a slow inventory:
+         the in-memory one of the harness or forml's own posix inventory (descriptor *modules* loaded on first use; those
+         batches address one application each, see batch_spec).
 """
 import atexit
 import os
@@ -63,7 +65,7 @@ RULE = (
     'each with 1-4 payload rows carrying unique tokens, a payload-carried processing delay (0-80 ms), a pre-send stagger, '
     'request/accept encodings, and a fault in {none, unsupported content type, unsupported accept, unknown application, '
     'missing feature column} at arbitrary positions; warm batches run on the long-lived engine, cold batches on a fresh '
-    'engine with a slow inventory. After every batch a probe batch (one healthy request per application) is judged too. '
+    'engine with a slow inventory (in-memory, or forml\'s posix inventory with one application per batch). After every batch a probe batch (one healthy request per application) is judged too. '
     'Non-trivial: >=8 requests over >=2 applications with >=1 fault and non-monotone delays. Distinct = spec digest.'
 )
 ASSUMPTIONS = [
